@@ -1,6 +1,7 @@
 """Seeded scenario generators (swarm style).  The PRNG is used here and nowhere else."""
 import hashlib
 import math
+import numpy as np
 import copy
 import random
 
@@ -221,6 +222,43 @@ def gen_C03(seed):
         cur = tgt
     if big:
         ops = [{"op": "integrate"}]
+    rt_ = sub(seed, "target_forms")
+    if not big and rt_.random() < 0.07:
+        # a last call whose target is only some tens .. 1e5 rounding units away from where the system stands (it is the last op: the
+        # library keeps the shrunken dt for later calls)
+        eps_ = {"float32": 1.2e-7, "float64": 2.3e-16, "longdouble": 1.1e-19}[scn["problem"]["dtype"]]
+        off = max(abs(cur), 1.0) * eps_ * 10 ** rt_.uniform(1.7, 5.0)
+        ops.append({"op": "integrate", "t": float(np.asarray(cur + direction * off, dtype=scn["problem"]["dtype"]))})
+    if not big:
+        # the target as a numpy scalar of another precision, a 0-d array or an int instead of a Python float.  The NUMBER stays the same
+        # in every form (a float32 target is first made representable in float32), and a later op that repeated the old number
+        # (a call made when already at the target) repeats the new one
+        prev = t0
+        renamed = {}
+        for op in ops:
+            if op.get("t") is None:
+                prev = tf
+                continue
+            if op["t"] in renamed:
+                op["t"] = renamed[op["t"]]
+            elif rt_.random() < 0.12:
+                ty = rt_.choice(["f64", "f64", "f32", "ld", "arr0", "int"])
+                told = op["t"]
+                if ty == "int":
+                    ti = int(round(told))
+                    if (ti - prev) * (told - prev) <= 0 or abs(ti - prev) > 3 * L:
+                        ty = "f64"
+                    else:
+                        op["t"] = ti
+                elif ty == "f32":
+                    t32 = float(np.float32(told))
+                    if (t32 - prev) * (told - prev) <= 0:
+                        ty = "f64"
+                    else:
+                        op["t"] = t32
+                renamed[told] = op["t"]
+                op["t_type"] = ty
+            prev = op["t"]
     if with_events:
         for op in ops:
             op["events"] = list(range(len(scn["events"])))
